@@ -26,7 +26,7 @@ import (
 func main() { wk.Main("C04", run) }
 
 func run(c *wk.Ctx) {
-	nw := c.Pick(32, 640) // workloads
+	nw := c.Pick(32, 96) // workloads (thorough: every ordering point of each)
 	for i := 0; i < nw; i++ {
 		if c.Mine(i) {
 			runWorkload(c, i)
@@ -200,7 +200,7 @@ func runWorkload(c *wk.Ctx, i int) {
 			}
 			img, info := im.ImageAt(k, tp)
 			c.Begin(i, fmt.Sprintf("image at op %d (%s) policy %s", k, points[k], polName))
-			nested := r.Intn(10) == 0
+			nested := r.Intn(c.Pick(10, 20)) == 0
 			ok := checkImage(c, i, w, batches, img, k, points[k], polName, info, 1, nested, r)
 			c.Eval()
 			c.Count("images", 1)
